@@ -49,7 +49,7 @@ ENGINES['ebuf'] = {
 MODULES = ['idem', 'null', 'dup', 'skip', 'htons', 'setattr', 'setflowdef', 'delay', 'match_attr', 'probe_uref',
            'queue_sink', 'queue_source', 'queue']
 ENGINES['epipe'] = {
-    'src': ['harness/epipe.c', 'harness/epipe_req.c'],
+    'src': ['harness/epipe.c'],   # includes harness/epipe_req.c
     'sim_src': ['sim/alloc.c', 'sim/umem_sim.c', 'sim/upump_sim.c'],
     'repo_src': ['lib/upipe/ubuf_block_mem.c', 'lib/upipe/ubuf_mem_common.c', 'lib/upipe/ubuf_pic_mem.c',
                  'lib/upipe/ubuf_pic_common.c', 'lib/upipe/ubuf_sound_mem.c', 'lib/upipe/ubuf_sound_common.c',
@@ -150,6 +150,13 @@ PIPE_ASSUME = ['one simulated thread; nondeterminism = order of ready pumps, all
                'catalogue = the 12 pipe types listed under real_code; other modules are not exercised']
 for _p in ('C01', 'C04', 'C05', 'C20'):
     PROPS[_p] = {'engine': 'epipe', 'quick_time': 30, 'thorough_time': 600, 'rule': PIPE_RULE, 'assumptions': list(PIPE_ASSUME)}
+PROPS['C12'] = {'engine': 'epipe', 'quick_time': 30, 'thorough_time': 600,
+    'rule': ('one case = a chain of 1-4 catalogue pipes (or a dup pipe) between the application and mock sinks, and a history of 5-30 operations: '
+             'register / unregister up to 4 requests (sink latency, flow format) on the head pipe, provide an answer at a sink where a proxy is lodged '
+             '(once or twice), set_output anywhere to NULL / back / a new sink, release a handle, data; probe providers answer at once or never; '
+             'teardown with requests still registered or unregistered first. Distinct = distinct plan hash.'),
+    'assumptions': ['in-thread chains only: the cross-queue part of C12 is not covered by this check',
+                    'request types exercised: sink latency and flow format']}
 PROPS['C20']['assumptions'].append('getter side effects are decided by a differential run: the same plan is executed with and without its getter calls (same choices) and the histories seen by sinks and probes must be identical')
 
 TECH = 'deterministic simulation with fault injection: seeded search over schedules / fault sequences, reference-model oracle, minimised replay files'
@@ -184,7 +191,13 @@ for _p in ('C01', 'C04', 'C05', 'C20'):
         'level_note': 'sampling, not enumeration; single simulated thread; catalogue of 12 pipe types; trusted base = sim/*, the model in harness/epipe.c',
         'design_ref': 'DESIGN.md section 5, E-pipe / ' + _p})
 
+PROPS['C12'].update({
+    'technique': 'deterministic simulation with fault injection: seeded register / unregister / set_output / provide / release histories over chains of real pipes; routing model evaluated after every operation (each registered request lodged exactly once at the sink the chain leads to), answers traced back through the proxies to the original callback; minimised replay files',
+    'level_note': 'sampling, not enumeration; in-thread chains only; trusted base = sim/*, harness/epipe.c, harness/epipe_req.c',
+    'design_ref': 'DESIGN.md section 5, C12'})
+
 LEVEL_TEXT = {
+    'C12': 'Seeded request histories over chains of real pipes built on upipe_helper_output: after every operation each registered request is lodged exactly once at the terminal the chain currently leads to and nowhere else, answers reach the original requester once with the value given, nothing calls back after unregister or after the chain is released. In-thread only. Evidence, not proof.',
     'C01': 'Seeded pipeline histories biased towards lifetime edges (re-plumbing to NULL, release in mid-run, teardown orders, allocation failures): every pipe throws dead exactly once, sinks are never destroyed while referenced by the application, all managers and probes return to one reference, nothing stays allocated. Evidence, not proof.',
     'C04': 'Seeded pipeline histories: ready first, dead exactly once and last, no event/data/flow definition after dead; every buffer reaches a sink under an accepted flow definition equal to the one in force (reference model and upstream getter), none after a rejection. Evidence, not proof.',
     'C05': 'Seeded pipeline histories against a reference model of every catalogue pipe: per sink the delivered sequence (numbers, payload, attributes, dates) equals the model, in order, exactly once; queues deliver held buffers first and in order, flush may only lose what was not delivered yet. Evidence, not proof.',
